@@ -232,6 +232,7 @@ class PathResult:
         self.value = value
         self.env = env
         self.events = interp.events
+        self.constraints = getattr(interp, "constraints", [])
         self.path = interp.path
         self.loops = interp.loops
         self.calls = interp.calls
@@ -340,6 +341,7 @@ class Interp:
         self.np = npsem
         del npsem.MODE_DIMS[:]
         self.views = {}
+        self.constraints = []  # (expression, comparison with 0, outcome) of every forked comparison, in order
 
     # ---- bookkeeping
     def event(self, kind, node, detail):
@@ -368,6 +370,7 @@ class Interp:
                 return False
             d = self.decide("%r %s 0" % (p.e, p.op))
             self.facts.refine(p.e, ts if d else (ALLSIGNS - ts))
+            self.constraints.append((p.e, p.op, d))
             return d
         if isinstance(p, BoolCombo):
             if p.op == "and":
@@ -761,7 +764,10 @@ class Interp:
         try:
             self.exec_block(s.body, env)
         except _LoopCtl as c:
-            raise AnalysisError("%s:%d: %s in a range loop is not modelled" % (self.cur_mod.name, c.node.lineno, c.kind.lower()))
+            if c.kind != "Continue":
+                raise AnalysisError("%s:%d: %s in a range loop is not modelled" % (self.cur_mod.name, c.node.lineno, c.kind.lower()))
+            # `continue` ends the generic iteration on this path
+            self.event("loop-continue", c.node, L.id)
         finally:
             self.loop_stack.pop()
         if s.orelse:
